@@ -133,29 +133,29 @@ theorem readClassAttrs_full {avail : Nat} : ∀ (as : List CAttr) (st : CSt) (p 
 /-! ## fields -/
 
 theorem readField_full {avail : Nat} {i : Nat} {f : Field} {p : Nat}
-    (hx : f.attrs.all (leafExact fieldAct) = true) (hle : p + f.size ≤ avail) :
+    (hx : f.attrs.all (leafExact fieldAct) = true) (hn : f.ok = true) (hle : p + f.size ≤ avail) :
     readField avail full i f p = .ok (p + f.size, fieldEv i f) := by
   simp only [Field.size, attrsSize_eq] at hle ⊢
   have h4 : p + 6 ≤ avail := by omega
   have h2 : p + 6 + 2 ≤ avail := by omega
   have h3 := readLeafs_full (avail := avail) (mk := Ev.fAttr i) f.attrs (p + 6 + 2) hx (by omega)
-  simp only [readField, full, need, h4, h2, if_true, bind, Except.bind, h3, pure_ok, fieldEv]
+  simp only [readField, full, need, h4, h2, if_true, bind, Except.bind, h3, pure_ok, fieldEv, hn, named_true]
   congr 2
   omega
 
 theorem readFields_full {avail : Nat} : ∀ (fs : List Field) (i p : Nat),
-    fs.all (fun f => f.attrs.all (leafExact fieldAct)) = true → p + fieldsSize fs ≤ avail →
+    fs.all (fun f => f.attrs.all (leafExact fieldAct)) = true → fs.all (·.ok) = true → p + fieldsSize fs ≤ avail →
     readFields avail full i fs p = .ok (p + fieldsSize fs, fieldsEv i fs) := by
   intro fs
   induction fs with
-  | nil => intro i p _ _; simp [readFields, fieldsEv, fieldsSize]
+  | nil => intro i p _ _ _; simp [readFields, fieldsEv, fieldsSize]
   | cons f fs ih =>
-    intro i p hx hle
-    simp only [List.all_cons, Bool.and_eq_true] at hx
+    intro i p hx hn hle
+    simp only [List.all_cons, Bool.and_eq_true] at hx hn
     have hs : fieldsSize (f :: fs) = f.size + fieldsSize fs := by simp [fieldsSize]
     rw [hs] at hle ⊢
-    have h1 := readField_full (avail := avail) (i := i) (p := p) hx.1 (by omega)
-    have h2 := ih (i + 1) (p + f.size) hx.2 (by omega)
+    have h1 := readField_full (avail := avail) (i := i) (p := p) hx.1 hn.1 (by omega)
+    have h2 := ih (i + 1) (p + f.size) hx.2 hn.2 (by omega)
     simp only [readFields, h1, h2, bind, Except.bind, pure_ok, fieldsEv]
     congr 2
     omega
@@ -263,30 +263,31 @@ theorem readMethodAttrs_full {avail i : Nat} : ∀ (as : List MAttr) (p : Nat),
       omega
 
 theorem readMethod_full {avail : Nat} {i : Nat} {mt : Method} {p : Nat}
-    (hx : mt.attrs.all mattrExact = true) (hwf : mt.attrs.all mattrWf = true) (hle : p + mt.size ≤ avail) :
+    (hx : mt.attrs.all mattrExact = true) (hwf : mt.attrs.all mattrWf = true) (hn : mt.ok = true)
+    (hle : p + mt.size ≤ avail) :
     readMethod avail full i mt p = .ok (p + mt.size, methodEv i mt) := by
   simp only [Method.size, attrsSize_eq] at hle ⊢
   have h4 : p + 6 ≤ avail := by omega
   have h2 : p + 6 + 2 ≤ avail := by omega
   have h3 := readMethodAttrs_full (avail := avail) (i := i) mt.attrs (p + 6 + 2) hx hwf (by omega)
-  simp only [readMethod, full_method, need, h4, h2, if_true, bind, Except.bind, h3, pure_ok, methodEv]
+  simp only [readMethod, full_method, need, h4, h2, if_true, bind, Except.bind, h3, pure_ok, methodEv, hn, named_true]
   congr 2
   omega
 
 theorem readMethods_full {avail : Nat} : ∀ (ms : List Method) (i p : Nat),
     ms.all (fun m => m.attrs.all mattrExact) = true → ms.all (fun m => m.attrs.all mattrWf) = true →
-    p + methodsSize ms ≤ avail →
+    ms.all (·.ok) = true → p + methodsSize ms ≤ avail →
     readMethods avail full i ms p = .ok (p + methodsSize ms, methodsEv i ms) := by
   intro ms
   induction ms with
-  | nil => intro i p _ _ _; simp [readMethods, methodsEv, methodsSize]
+  | nil => intro i p _ _ _ _; simp [readMethods, methodsEv, methodsSize]
   | cons f fs ih =>
-    intro i p hx hwf hle
-    simp only [List.all_cons, Bool.and_eq_true] at hx hwf
+    intro i p hx hwf hn hle
+    simp only [List.all_cons, Bool.and_eq_true] at hx hwf hn
     have hs : methodsSize (f :: fs) = f.size + methodsSize fs := by simp [methodsSize]
     rw [hs] at hle ⊢
-    have h1 := readMethod_full (avail := avail) (i := i) (p := p) hx.1 hwf.1 (by omega)
-    have h2 := ih (i + 1) (p + f.size) hx.2 hwf.2 (by omega)
+    have h1 := readMethod_full (avail := avail) (i := i) (p := p) hx.1 hwf.1 hn.1 (by omega)
+    have h2 := ih (i + 1) (p + f.size) hx.2 hwf.2 hn.2 (by omega)
     simp only [readMethods, h1, h2, bind, Except.bind, pure_ok, methodsEv]
     congr 2
     omega
@@ -338,7 +339,7 @@ size and delivers `fullEvents` -/
 theorem readWith_full {c : ClassFrame} {avail : Nat} (hwf : wellFormed c = true) (hle : c.size ≤ avail) :
     readWith full c avail = .ok (c.size, fullEvents c) := by
   simp only [wellFormed, Bool.and_eq_true] at hwf
-  obtain ⟨⟨⟨hx, hok⟩, hcw⟩, hmw⟩ := hwf
+  obtain ⟨⟨⟨⟨⟨hx, hok⟩, hcw⟩, hmw⟩, hfn⟩, hmn⟩ := hwf
   obtain ⟨hxf, hxm, hxa⟩ := framesExact_parts hx
   have hsz : c.size = c.hdr + (2 + fieldsSize c.fields) + (2 + methodsSize c.methods)
       + (2 + lensSize (cattrLens c.attrs)) := by
@@ -356,11 +357,11 @@ theorem readWith_full {c : ClassFrame} {avail : Nat} (hwf : wellFormed c = true)
   have h5 : 0 + c.hdr + 2 + fieldsSize c.fields + 2 + methodsSize c.methods + 2 ≤ avail := by omega
   have h6 := readClassAttrs_full (avail := avail) c.attrs {}
     (0 + c.hdr + 2 + fieldsSize c.fields + 2 + methodsSize c.methods + 2) hxa hcw (by omega)
-  have h7 := readFields_full (avail := avail) c.fields 0 (0 + c.hdr + 2) hxf (by omega)
-  have h8 := readMethods_full (avail := avail) c.methods 0 (0 + c.hdr + 2 + fieldsSize c.fields + 2) hxm hmw
+  have h7 := readFields_full (avail := avail) c.fields 0 (0 + c.hdr + 2) hxf hfn (by omega)
+  have h8 := readMethods_full (avail := avail) c.methods 0 (0 + c.hdr + 2 + fieldsSize c.fields + 2) hxm hmw hmn
     (by omega)
-  simp only [readWith, full_cls, need, h0, h1, h3, h5, if_true, bind, Except.bind, hok, Bool.not_true,
-    Bool.false_eq_true, if_false, h2, h4, h6, h7, h8, pure_ok, fullEvents]
+  simp only [readWith, readFieldsI, readMethodsI, full_fieldsI, full_methodsI, full_cls, need, h0, h1, h3, h5, if_true,
+    bind, Except.bind, hok, Bool.not_true, Bool.false_eq_true, if_false, h2, h4, h6, h7, h8, pure_ok, fullEvents]
   congr 2
   omega
 
